@@ -34,6 +34,7 @@ CANARIES = {
         ("hash-regex-unicode-casefold", "stix2/hashes.py", "text", ["re.compile(re_str, re.I | re.A)", "re.compile(re_str, re.I)"], "C02.hash-regex"),
         ("nan-passes-range-check", "stix2/properties.py", "text", ["        if not math.isfinite(value):\n", "        if False:\n"], "C02.clean-contract"),
         ("empty-body-taken-for-absent", "stix2/v21/observables.py", "text", ["if self.get('is_multipart') is True and 'body' in self:", "if self.get('is_multipart') is True and self.get('body'):"], "C02.constraints"),
+        ("lenient-base64-validation", "stix2/properties.py", "text", ["base64.b64decode(value, validate=True)", "base64.b64decode(value)"], "C02.binary-values"),
     ],
     "C03": [
         ("revoked-default-flipped", "stix2/v21/sdo.py", "bool-flip", ["Indicator", "False -> True", "lambda: False"], "C03.table"),
@@ -112,6 +113,7 @@ CANARIES = {
         ("operand-root-types-aliased", "stix2/patterns.py", "text", ["self.root_types = set(arg.root_types)", "self.root_types = arg.root_types"], "C10.definite-init"),
         ("chain-extended-in-place", "stix2/pattern_visitor.py", "text", ['                return self.instantiate("OrBooleanExpression", children[0].operands + [children[2]])', '                children[0].operands.append(children[2])\n                return children[0]'], "C10.operator-table"),
         ("hex-validator-dollar", "stix2/patterns.py", "text", ["'^([a-fA-F0-9]{2})+\\Z'", "'^([a-fA-F0-9]{2})+$'"], "C10.hex-literal-form"),
+        ("lenient-base64-validation", "stix2/patterns.py", "text", ["base64.b64decode(value, validate=True)", "base64.b64decode(value)"], "C10.binary-literal-form"),
     ],
     "C11": [
         ("overwrite-refusal-removed", "stix2/datastore/filesystem.py", "drop-raise-guard", ["_check_path_and_write", "os.path.isfile"], "C11.check-before-write"),
